@@ -50,7 +50,11 @@ RIGHTS = [('x', [{}]), ('1', [{}]), ('1.5', [{}]), ('True', [{}]),
           ('None', [{}]), ("['x']", [{}]), ('', [{}]),
           ('%(t)s', [{'t': 'x'}, {'t': 1}, {'t': True}, {'t': None},
                      {'t': 1.5}, {}]),
-          ('%(t)s-x', [{'t': 'x'}, {}])]
+          ('%(t)s-x', [{'t': 'x'}, {}]),
+          # target attribute names with punctuation (network:tenant_id,
+          # os-vol-tenant-attr:tenant_id and the like)
+          ('%(net:own)s', [{'net:own': 'x'}, {'net': 'x'}, {}]),
+          ('%(t-id)s', [{'t-id': 'x'}, {}])]
 
 
 def checks():
